@@ -89,6 +89,7 @@ def run_modscope(spec, ctx):
                         params, mod, body, ", ".join("'mine'" for _ in params.split(", ")))),
                     ("require-inside-function-with-locals", "def loader_() do %s; require %s; %s end; loader_()" % (sh_defs, mod, body))]
         path_in_session = r.random() < 0.5
+        own_env = r.random() < 0.5      # run in an environment of the host's own, or directly in the session scope (as the CLI does)
         for tag, src in variants:
             it, out = core.new_interpreter(secure=True, legacy=False)
             env = ckl.functions.Environment()
@@ -96,7 +97,10 @@ def run_modscope(spec, ctx):
             mp.addItem(V.ValueString(moddir))
             # the module path as an embedding host would set it (base scope) or as the command-line hosts do (session scope)
             (it.environment if path_in_session else it.base_environment).put("checkerlang_module_path", mp)
-            o = core.observe(lambda: it.interpret(src, "c03mod", env), 3000000)
+            if own_env:
+                o = core.observe(lambda: it.interpret(src, "c03mod", env), 3000000)
+            else:
+                o = core.observe(lambda: it.interpret(src, "c03mod"), 3000000)
             outs.append((tag, src, o.kind, core.safe_str(o.value if o.kind == "value" else getattr(o.exc, "msg", o.exc), 300)))
             ctx.count("modscope_programs")
         ctx.case(("modscope", body, sh_defs, params), nontrivial=True)
